@@ -102,6 +102,22 @@ def s_oracle(case, x, h0, h1):
                         if any(abs(a - b) > 1e-6 * max(1.0, abs(b)) for a, b in zip(n1, want)):
                             fails.append({"what": f"{agg} group {g}: numerators/denominator {n1} but expected {want}", "kind": "own-group", "level": agg})
                             break
+                        # both bounds move with the prediction: they are quantiles of draws that contain the unit's known margin and votes
+                        for a_ in p["prediction_intervals"]:
+                            lo1, hi1, pm1 = r1[f"lower_{a_}_margin"], r1[f"upper_{a_}_margin"], r1["pred_margin"]
+                            if r0 is not None:
+                                settled = abs((r0[f"upper_{a_}_margin"] - r0[f"lower_{a_}_margin"]) - 0.002) < 1e-9
+                            else:
+                                settled = True      # a new group holds nothing but the unit's own known votes
+                            called = abs(abs(pm1) - 0.005) < 1e-12
+                            if settled and not called and (abs(lo1 - (pm1 - 0.001)) > 1e-9 or abs(hi1 - (pm1 + 0.001)) > 1e-9):
+                                fails.append({"what": f"{agg} group {g} has no outstanding vote: bounds at level {a_} are [{lo1}, {hi1}] but the prediction with the "
+                                                      f"extra unit is {pm1} (expected {pm1 - 0.001}, {pm1 + 0.001})", "kind": "own-group-bounds", "level": agg})
+                                break
+                            if not called and not (lo1 <= pm1 <= hi1):
+                                fails.append({"what": f"{agg} group {g}: bounds at level {a_} [{lo1}, {hi1}] do not contain the prediction {pm1} after adding the unit",
+                                              "kind": "own-group-bounds", "level": agg})
+                                break
                 else:
                     d = resx if mine else 0
                     for c in cols:
@@ -154,8 +170,15 @@ def worker(job):
     case1 = copy.deepcopy(case)
     case1["feed"].append(x)
     h0 = aggfam.harvest(case)
-    h1 = aggfam.harvest(case1)
     p = case["params"]
+    if p["pi_method"] == "bootstrap":
+        from harness import boot
+
+        with boot.ContestCapture() as ccap:
+            h1 = aggfam.harvest(case1)
+    else:
+        ccap = None
+        h1 = aggfam.harvest(case1)
     fp = aggfam.fingerprint(case, h0)
     fp["x"] = spec
     fp["ok1"] = h1["ok"]
@@ -195,6 +218,24 @@ def worker(job):
                 labels.append(f"{e}|{agg}")
             res["exprs"].append(f"let x := {xr} in {llit(checks)}")
             res["labels"].append(labels)
+    if ccap is not None:
+        # contest structure of the bootstrap (district offices): the implementation's contest-effect columns against the model
+        # evaluated, inside Coq, with the frames the translator found in the source
+        for c in ccap.calls:
+            if not c["district_election"] or c["e"] is None or c["names"] is None:
+                continue
+            if any(v != v or v in ("nan", "None") for pair in c["e"] + c["u"] for v in pair):
+                continue
+            impl = [n.split("_", 1) for n in c["names"] if n not in c["states"]]
+            if any(len(x) != 2 for x in impl):
+                res["s"].append(dict(ctx, what=f"contest-effect column names {c['names']} are not <state>_<district>", kind="contest-names"))
+                continue
+            cl = lambda l: llit([f"({slit(a)}, {slit(b)})" for a, b in l])  # noqa: E731
+            q = "Elex.Model.ContestEffects"
+            g = "Elex.Gen.Contests"
+            res["exprs"].append(f"[{q}.check_selected {g}.multi_frame {g}.valid_frame {g}.count_frame {g}.contest_threshold {cl(c['e'])} {cl(c['u'])} {cl(impl)}]")
+            res["labels"].append(["contest-structure"])
+    res["imports"] = aggfam.IMPORTS + "From Elex Require Model.ContestEffects Gen.Contests.\n"
     res["sample"] = {"seed": seed, "estimator": p["pi_method"], "office": case["office"], "unit_type": case["unit_type"], "aggregates": aggs,
                      "extra_unit": x, "spec": spec}
     return res
